@@ -6077,8 +6077,11 @@ memory_cast = getattr(memoryview, "cast", lambda *x: x[0])
 
 
 def modified_base64(s):
-    s_utf7 = s.encode("utf-7")
-    return s_utf7[1:-1].replace(b"/", b",")
+    # RFC 3501 section 5.1.3: BASE64 of the UTF-16BE form, without padding
+    # and with "," in place of "/".  (The utf-7 codec can not be used to
+    # produce it: it emits TAB, LF and CR directly rather than in BASE64.)
+    s_utf16 = s.encode("utf-16-be")
+    return binascii.b2a_base64(s_utf16).rstrip(b"\n=").replace(b"/", b",")
 
 
 def modified_unbase64(s):
